@@ -9,6 +9,7 @@
 package wire
 
 import (
+	"sync"
 	"context"
 	"fmt"
 	"math/big"
@@ -193,7 +194,32 @@ type Wides []Wide
 // Cust serializes itself (2 bytes, big-endian on purpose: the bytes are opaque to serix).
 type Cust struct{ Hi, Lo byte }
 
-func (c Cust) Encode() ([]byte, error) { return []byte{c.Hi, c.Lo}, nil }
+// Encode hands out a view into an arena of interned encodings (as an implementation that avoids allocations would): the
+// slice has spare capacity, and what lies behind it are the encodings of other values. Whoever receives it must not write to it.
+func (c Cust) Encode() ([]byte, error) {
+	k := [2]byte{c.Hi, c.Lo}
+	custMu.Lock()
+	defer custMu.Unlock()
+	off, ok := custOff[k]
+	if !ok {
+		if len(custArena)+2 > cap(custArena) {
+			custArena, custOff = make([]byte, 0, 1<<12), map[[2]byte]int{}
+		}
+		off = len(custArena)
+		custArena = append(custArena, c.Hi, c.Lo)
+		custOff[k] = off
+	}
+	return custArena[off : off+2], nil
+}
+
+var (
+	custMu    sync.Mutex
+	custArena = make([]byte, 0, 1<<12)
+	custOff   = map[[2]byte]int{}
+)
+
+// MapCustKey: a map whose KEY is the custom Serializable (no object type).
+type MapCustKey map[Cust]uint8
 func (c *Cust) Decode(b []byte) (int, error) {
 	if len(b) < 2 {
 		return 0, fmt.Errorf("cust: need 2 bytes")
@@ -437,6 +463,8 @@ func init() {
 	add("Wides", Wides{})
 
 	add("Cust", Cust{})
+	must(api.RegisterTypeSettings(MapCustKey{}, lp(b8)))
+	add("MapCustKey", MapCustKey{})
 	add("CustC", CustC{})
 
 	must(api.RegisterTypeSettings(Outer{}, ts().WithObjectType(uint32(9))))
